@@ -65,7 +65,13 @@ def _work(args):
     try:
         with warnings.catch_warnings():
             warnings.simplefilter('ignore')
-            obs = scenes.run_scene(rows, prms)
+            # the chunk's descriptive attributes (place, reference time) only decorate the plot: any value is allowed
+            ck = {}
+            if rng.random() < 0.6:
+                ck['geoloc'] = rng.choice(['Mock data', 'LSZH', 'Genève-Cointrin (é) 100%', '', 'a_b^c $x$'])
+            if rng.random() < 0.6:
+                ck['ref_dt'] = rng.choice(['2024-06-01 12:00:00', '', 'now', '291650Z'])
+            obs = scenes.run_scene(rows, prms, chunk_kwargs=ck)
             if obs['exc']:
                 return {'k': k, 'family': fam, 'findings': [], 'skip': 'run raised', 'n_plots': 0}
             chunk = obs['chunk']
@@ -94,7 +100,8 @@ def _work(args):
                 show_ceilos = rng.random() < 0.5
                 ref = rng.choice([None, 'FEW010 BKN035', 'NCD', ''])
                 origin = rng.choice([None, 'Mock data', 'LSZH 291650Z'])
-                fmts = rng.choice([None, 'png', ['png'], ['png', 'pdf'], []])
+                fmts = rng.choice([None, 'png', ['png'], ['png', 'pdf'], [], 'svg', ['jpg'], ['tif', 'png'], 'webp', ['eps'], ['ps', 'jpeg'],
+                                   ['raw'], 'tiff', ['gif'], ['rgba', 'svg']])
                 stem = os.path.join(tmp, rng.choice([f'p{k}_{j}', f'LSGG_2024.06.{k % 28 + 1:02d}_{j}', f'v2.0.{j}_diag{k}'])) if rng.random() < 0.8 else None
                 listing_before = set(os.listdir(tmp))
                 try:
